@@ -199,6 +199,8 @@ fn run_codegen(req: &Value, tree: &Arc<mos_core::parser::ParseTree>, greedy: boo
                         }
                     }
                     let nb = req.get("listing_bytes").and_then(|n| n.as_u64()).unwrap_or(8) as usize;
+                    // `mos build` writes listings only after a successful assembly
+                    if real.is_empty() {
                     match catch_unwind(AssertUnwindSafe(|| to_listing(&ctx, nb))) {
                         Ok(Ok(l)) => {
                             let total: usize = l.values().map(|s| s.len()).sum();
@@ -210,6 +212,7 @@ fn run_codegen(req: &Value, tree: &Arc<mos_core::parser::ParseTree>, greedy: boo
                         Err(p) => {
                             o.insert("listing_panic".into(), panic_msg(&p));
                         }
+                    }
                     }
                     if real.is_empty() && req.get("extra_pass").and_then(|b| b.as_bool()).unwrap_or(false) {
                         match catch_unwind(AssertUnwindSafe(|| ctx.verif_extra_pass())) {
